@@ -37,7 +37,7 @@ MANIFEST = dict(
          "pthreads, poll/pipe modelled not verified; ^C/^Z cancellation (F08-CANCELED) only in the model; harness, "
          "generators, gcc, ASan/UBSan trusted")
 
-FIXNAMES = ["d7", "d8", "d9", "late"]
+FIXNAMES = ["d7", "d8", "d9", "late", "canc"]
 SIGS = [1, 2, 3, 6, 9, 10, 11, 13, 14, 15]
 CODES = [0, 0, 0, 1, 2, 3, 7, 42, 126, 127, 128, 129, 137, 143, 200, 253, 254, 255]
 
@@ -192,18 +192,20 @@ def gen_stream(rng, magic):
 
 # --------------------------------------------------------------------------- variant detection
 def detect_variant(exe, magic, env):
-    """which of the four proposed repairs the code under test already contains (probe inputs);
+    """which of the five proposed repairs the code under test already contains (probe inputs);
     the model is then run in that variant, so the check works on the unchanged and on repaired trees"""
     probes = [["xd s9"],
               ["dsh 1 0 2 0 c1,o-,v255,d0,t0;c0,o-,v0,d0,t0"],
               ["xrc " + hexs(b"foo" + magic + b"3\n")],
-              ["dsh 1 0 1 0 c1,o%s,v0,d0,t0" % hexs(magic + b"3\nlate\n")]]
+              ["dsh 1 0 1 0 c1,o%s,v0,d0,t0" % hexs(magic + b"3\nlate\n")],
+              ["dsh 1 0 2 0 c1,o-,v0,d0,t0;x1"]]
     res = run_batch([exe], probes, timeout=60, env=env)
     a = [r[0][0] if r[0] else "" for r in res]
     bits = ["1" if a[0].strip() not in ("0", "") else "0",
             "1" if exit_of(a[1]) == 255 else "0",
             "1" if a[2].split(" ")[0] == "3" else "0",
-            "1" if exit_of(a[3]) == 3 else "0"]
+            "1" if exit_of(a[3]) == 3 else "0",
+            "1" if exit_of(a[4]) == 254 else "0"]
     return "".join(bits), a
 
 
@@ -214,14 +216,14 @@ def attribute(ctx, cases, base_bits):
     ('unexplained' if none does): the signature under which the offender is reported."""
     if not cases:
         return []
-    missing = [i for i in range(4) if base_bits[i] == "0"]
+    missing = [i for i in range(len(FIXNAMES)) if base_bits[i] == "0"]
     subsets = [c for r in range(1, len(missing) + 1) for c in itertools.combinations(missing, r)]
     found = [None] * len(cases)
     for sub in subsets:
         todo = [i for i in range(len(cases)) if found[i] is None]
         if not todo:
             break
-        bits = "".join("1" if (base_bits[i] == "1" or i in sub) else "0" for i in range(4))
+        bits = "".join("1" if (base_bits[i] == "1" or i in sub) else "0" for i in range(len(FIXNAMES)))
         ans = ctx.model("exit", "".join(cases[i][0] + "\n" for i in todo), args=["model", bits])
         sp = ctx.model("exit", "".join("%s %d\n" % (cases[i][1], exit_of(a) if exit_of(a) is not None else 999)
                                        for i, a in zip(todo, ans)), args=["spec"])
@@ -397,6 +399,8 @@ def run(ctx):
         bits, probe_ans = detect_variant(exe, magic, env)
         cov["variant_detected"] = {n: b == "1" for n, b in zip(FIXNAMES, bits)}
         ctx.log("code under test contains repairs:", cov["variant_detected"])
+        if getattr(ctx, "replay", None):
+            return replay(ctx, cov, exe, repo, magic, bits, env)
 
         # ---- (a) _extract_rc ------------------------------------------------------------------
         nx = 1500 if ctx.quick() else 25000
@@ -518,6 +522,21 @@ def run(ctx):
             if dom and sp != "ok":
                 bad.append((s, h, m_in, ans[0], spl, exit_of(m) == exit_of(ans[0])))
         report_bad(ctx, bad, bits, "dsh()")
+        # targets canceled before they started (rcmd_create fails -> DSH_CANCELED, the state ^C ^Z leaves behind):
+        # their command never ran, so -S must not report 0 ("0 only if every command on every target ran and succeeded")
+        cscn = []
+        for _ in range(25 if ctx.quick() else 400):
+            n = rng.choice([1, 2, 3, 4])
+            hosts = [rng.choice(["x1", "x1", "c1,o-,v0,d0,t0", "c1,o-,v0,d%d,t0" % rng.choice([0, 5]),
+                                 "c1,o-,v%d,d0,t0" % rng.choice([1, 7, 255]), "c0,o-,v0,d0,t0"]) for _ in range(n)]
+            cscn.append("dsh %d %d %d 0 %s" % (rng.choice([1, 1, 1, 0]), 0, rng.choice([1, 2, 32]), ";".join(hosts)))
+        impl = run_batch([exe], [[l] for l in cscn], env=env, timeout=600)
+        mod = ctx.model("exit", "".join(l + "\n" for l in cscn), args=["model", bits])
+        for l, (ans, crash), m in zip(cscn, impl, mod):
+            cov["evaluations"] += 1
+            dist["dsh_canceled"] = dist.get("dsh_canceled", 0) + 1
+            distinct.add(("dsh", l))
+            judge_canceled(ctx, l, ans, crash, m)
         # ---- (d) the real binary ----------------------------------------------------------------
         helper = os.path.join(ctx.scratch, "exit_helper")
         hb = subprocess.run(["gcc", "-O1", "-w", os.path.join(HARNESS, "exit_helper.c"), "-o", helper])
@@ -544,7 +563,7 @@ def run(ctx):
                 if s["cmdtmo"]:
                     dist["cli_timeouts"] += 1
                 distinct.add(("cli", ml_))
-                case = {"argv": av[:1] + ["..."] + av[1:], "model_op": ml_, "exit": rc}
+                case = {"argv": av[:1] + ["..."] + av[1:], "model_op": ml_, "exit": rc, "spec_query": spl}
                 if rc is None:
                     ctx.offender("timeout", "pdsh did not finish within 25 s", case)
                     continue
@@ -603,6 +622,132 @@ def run(ctx):
                       "Gen/Dsh.lean regenerated from /repo (RC_MAGIC, RC_FAILED)",
                       "harness/exit_harness.c (scripted rcmd layer), exit_exec.c, exit_helper.c, vlib/, gcc, ASan/UBSan"],
         checker_cmd="lake build PdshVerif.Props.C08 && #print axioms on every theorem of Props/C08.lean")
+
+
+def replay(ctx, cov, exe, repo, magic, bits, env):
+    """./check.py C08 --replay FILE: run exactly the recorded failing input against the code under test (built from
+    the current tree), the model and the specification; exit 1 with the same kind of VIOLATION if it still fails"""
+    import json
+    rp = json.load(open(ctx.replay))
+    case = rp.get("case") or {}
+    sig = rp.get("signature", "")
+    cov["rule"] = "replay of %s (signature %s)" % (os.path.basename(ctx.replay), sig)
+    pdsh = os.path.join(repo, "src", "pdsh", "pdsh")
+    helper = os.path.join(ctx.scratch, "exit_helper")
+    subprocess.run(["gcc", "-O1", "-w", os.path.join(HARNESS, "exit_helper.c"), "-o", helper])
+
+    def relocate(words):
+        out = []
+        for w in words:
+            if w == "...":
+                continue
+            b = os.path.basename(w)
+            out.append(pdsh if b == "pdsh" and "/" in w else (helper if b == "exit_helper" else w))
+        return out
+
+    def judge(where, desc, ans, model_op, spec_query):
+        m = ctx.model("exit", model_op + "\n", args=["model", bits])[0]
+        ctx.log("replay: impl `%s` model `%s`" % (ans, m))
+        if exit_of(m) != exit_of(ans):
+            ctx.disagreement("exit model vs %s" % where, "impl `%s` model `%s`" % (ans, m), {"case": desc, "model_op": model_op})
+        if spec_query:
+            prefix = spec_query.rsplit(" ", 1)[0]
+            e = exit_of(ans)
+            sp = ctx.model("exit", "%s %d\n" % (prefix, e if e is not None else 999), args=["spec"])[0]
+            if sp != "ok":
+                w = prefix.split(" ")
+                scn = {"S": int(w[1]), "k": int(w[2]), "hosts": []}
+                report_bad(ctx, [(scn, desc, model_op, ans, "%s %d" % (prefix, e if e is not None else 999),
+                                  exit_of(m) == e)], bits, where)
+
+    cov["evaluations"] = 1
+    if rp.get("kind") != "input" or not case:
+        ctx.log("replay file names no input (theorem/correspondence only): running the whole check instead")
+        ctx.replay = None
+        return run(ctx)
+    if "line_hex" in case:
+        l = bytes.fromhex(case["line_hex"]) if case["line_hex"] != "-" else b""
+        (ans, crash), = run_batch([exe], [["xrc " + hexs(l)]], env=env)
+        m = ctx.model("exit", "xrc %s\n" % hexs(l), args=["model", bits])[0]
+        ctx.log("replay: _extract_rc(%r) impl `%s` model `%s` expected `%s`" % (l, ans, m, case.get("expected")))
+        if crash is not None:
+            ctx.offender("crash", "_extract_rc aborts on %r: %s" % (l, crash[-300:]), case)
+        else:
+            if ans[0] != m:
+                ctx.disagreement("exit model vs _extract_rc", "line %r: impl `%s` model `%s`" % (l, ans[0], m), case)
+            if case.get("expected") is not None and ans[0].split(" ")[0] != str(case["expected"]):
+                ctx.offender(sig if ans[0] == m else "xrc:unexplained", "_extract_rc(%r) = `%s`, the marker line denotes `%s`" %
+                             (l, ans[0], case["expected"]), case)
+    elif str(case.get("op", "")).startswith("xd "):
+        h = case["op"][3:]
+        (ans, crash), = run_batch([exe], [["xd " + h]], env=env, timeout=60)
+        end = h.split("_")[-1]
+        m = ctx.model("exit", "xd %s\n" % end, args=["model", bits])[0]
+        ctx.log("replay: exec_destroy %s impl `%s` model `%s`" % (h, ans, m))
+        if crash is not None or not ans:
+            ctx.offender("crash", "exec_destroy harness aborts on %s" % h, case)
+        else:
+            if ans[0] != m:
+                ctx.disagreement("exit model vs exec_destroy", "%s: impl %s model %s" % (h, ans[0], m), case)
+            if end[0] == "e" and ans[0] != end[1:]:
+                ctx.offender("xd:status-of-late-exit", "exec_destroy returned %s for a child that exits with code %s" %
+                             (ans[0], end[1:]), case)
+    elif case.get("where") == "dsh()-canceled" or (case.get("where") == "dsh()" and "model_op" not in case):
+        (ans, crash), = run_batch([exe], [[case["case"]]], env=env, timeout=120)
+        m = ctx.model("exit", case["case"] + "\n", args=["model", bits])[0]
+        judge_canceled(ctx, case["case"], ans, crash, m)
+    elif case.get("where") == "dsh()" or "harness_op" in case or str(case.get("op", "")).startswith("dsh "):
+        op = case.get("case") or case.get("harness_op") or case.get("op")
+        (ans, crash), = run_batch([exe], [[op]], env=env, timeout=120)
+        if crash is not None or not ans:
+            ctx.offender("crash", "dsh() harness aborts/hangs: %s" % (crash or "")[-300:], case)
+        else:
+            judge("dsh()", op, ans[0], case.get("model_op", op), case.get("spec_query"))
+    elif "canceled_reported" in case:
+        rc, cancelled = run_cancel(pdsh, helper, 3)
+        ctx.log("replay: exit %s, canceled %s" % (rc, cancelled))
+        if rc is None:
+            ctx.offender("timeout", "pdsh did not finish after ^C ^Z", case)
+        elif cancelled and rc == 0:
+            ctx.offender("S:canceled-exit0", "pdsh -S exits 0 although %d target(s) were canceled and their command never ran"
+                         % cancelled, dict(case, exit=rc, canceled_reported=cancelled))
+    else:
+        av = case.get("argv") if isinstance(case.get("argv"), list) else str(case.get("case", "")).split(" ")
+        av = relocate(av)
+        if av and os.path.basename(av[0]) != "pdsh":
+            av = [pdsh] + av
+        if av and av[0] == "pdsh":
+            av[0] = pdsh
+        rc, errtxt = run_cli(av)
+        ctx.log("replay: %s -> exit %s" % (" ".join(os.path.basename(a) if "/" in a else a for a in av)[:300], rc))
+        newcase = dict(case, exit=rc, argv=av)
+        if rc is None:
+            ctx.offender("timeout", "pdsh did not finish within 25 s", newcase)
+        elif rc < 0:
+            ctx.offender("crash", "pdsh killed by signal %d" % -rc, newcase)
+        elif sig == "refused-not-1" or ("model_op" not in case and "spec_query" not in case):
+            if rc != 1:
+                ctx.offender("refused-not-1", "refused arguments must exit 1, got %s" % rc, newcase)
+        else:
+            judge("pdsh", " ".join(av), "exit %d" % rc, case["model_op"], case.get("spec_query"))
+    cov["distinct_nontrivial"] = 1
+    cov["distribution"] = {"replay": 1}
+    cov["traces_validated_against_impl"] = 1
+    return ctx.finish(LEVEL, cov, assumptions=["replay of one recorded input"],
+                      trusted_base=["see the full check"], checker_cmd="lake build PdshVerif.Props.C08")
+
+
+def judge_canceled(ctx, op, ans, crash, m):
+    if crash is not None or not ans:
+        ctx.offender("crash", "dsh() harness aborts/hangs: %s" % (crash or "")[-400:], {"op": op})
+        return
+    if ans[0] != m:
+        ctx.disagreement("exit model vs dsh() (canceled targets)", "impl `%s` model `%s`" % (ans[0], m), {"harness_op": op})
+    w = op.split(" ")
+    ncanc = w[5].split(";").count("x1")
+    if w[1] == "1" and ncanc and exit_of(ans[0]) == 0:
+        ctx.offender("S:canceled-exit0", "dsh() with -S ends with `%s` although %d target(s) were canceled and their command "
+                     "never ran" % (ans[0], ncanc), {"where": "dsh()-canceled", "case": op, "impl": ans[0]})
 
 
 def report_bad(ctx, bad, bits, where):
